@@ -428,7 +428,10 @@ def _glue_run(K, bodies, srp, gr, thr, degree=4, order=3, model="egm96.txt"):
         @staticmethod
         def build(utc_date, eops=None):
             log["red"].append(utc_date)
-            return _Tok(rot_pn=PN.copy(), rot_w=W.copy(), dut1=dut1, eq_equinox=eqe, built_from=utc_date)
+            # fields the force model has no business with (they belong to the whole-second calendar instant the reduction was built for, not to the
+            # evaluation epoch) are free symbols: a result that depends on them cannot equal the reference
+            other = {n: reals(f"RP_{n}{len(log['red'])}", 3, 3) for n in ("rot_pnr", "rot_rnp", "rot_wt")}
+            return _Tok(rot_pn=PN.copy(), rot_w=W.copy(), dut1=dut1, eq_equinox=eqe, built_from=utc_date, date_time=utc_date, lod=real(f"RP_lod{len(log['red'])}"), **other)
 
     def doy(year, month, day, hour, minute, second):
         return SReal(DOY(*[_real_term(x) for x in (year, month, day, hour, minute, second)]))
@@ -533,6 +536,8 @@ def _glue_inputs(run):
         for j in range(K):
             X[:3, j], X[3:, j] = vec[f"r{j}"], vec[f"v{j}"]
         t, jd0 = mfloat(m, run.t.t), mfloat(m, run.jd0.t)
+        if t == int(t):
+            t += 0.37  # a generic elapsed time: the model leaves t free, and integration stages do not fall on whole seconds
         alts = []
         if cfg["srp"]:  # the visible fraction is a real function in a replay: offer a sunlit and an umbra (anti-Sun axis) variant of the state
             from resonaate.physics.bodies import Sun
@@ -629,7 +634,7 @@ def _glue_config(rep, K, bodies, srp, gr, thr, degree=4, order=3):
         seen = [("JulianDate", x) for x in log["jd"]]
         seen += [("julianDateToDatetime", jdt(jd)) for jd in log["dt"]] + [(f"{n}.getPosition", jdt(jd)) for n, jd in log["pos"]] + [("calendar_date", jdt(jd)) for jd in log["cal"]]
         seen += [("ReductionParams.build", jdt(dt)) for dt in log["red"]]
-        if not log["jd"] or not log["red"] or not log["cal"]:
+        if not log["jd"] or not log["red"]:
             rep.error(f"{name}:providers", "epoch providers were not called")
             return
         ge = z3.And(*[_real_term(x) == epoch for _n, x in seen])
